@@ -203,7 +203,7 @@ def main(argv=None):
     if tier not in ("quick", "thorough"):
         tier = "quick"
     t0 = time.time()
-    evdir = os.path.join(VERIF, "evidence")
+    evdir = os.environ.get("VERIF_EVIDENCE_DIR") or os.path.join(VERIF, "evidence")
     os.makedirs(os.path.join(evdir, "replay"), exist_ok=True)
     evfile = os.path.join(evdir, pid + ".json")
 
